@@ -15,6 +15,7 @@ import Proofs.PostProcessContent
 import Proofs.PostProcessAlias
 import Proofs.PostProcessMapped
 import Proofs.PostProcessChecked
+import Proofs.PostProcessAtomic
 import Gen.Facts
 
 namespace Props.C13
@@ -494,22 +495,60 @@ theorem outs_rewrite_is_atomic :
     Gen.postProcessOutsWriters.map writerOfName = [some .atomic] ∧ Gen.writeAtomicSteps = atomicSteps := by
   decide
 
-/-- With the writer found in the source, however far the single write of the
-record gets before a crash or an I/O error, the record file holds either the
-complete old record or the complete new one — never a fragment.  (Under the
-stated OS assumption; the harness checks the same on the real code by running
-post-processing under RLIMIT_FSIZE and under kill -9.) -/
-theorem record_old_or_new (old new : List UInt8) (k : Nat) :
+/-- The record PATH under a cut write, on the file system of byte files
+(`BFS`; the steps of `writeAtomicAt` are `writeAtomicCut`: open `<target>.tmp`,
+its bytes, then `rename` — the regenerated `Gen.writeAtomicSteps` pins that
+order; the ONLY assumption is the atomicity of `rename(2)`, which is the
+semantics of `BFS.rename`).  For every writer the post-processing path uses
+(`Gen.postProcessOutsWriters`), every file system in which the record path
+holds `old`, every new record and EVERY cut point `k`:
+* the record path holds exactly `old` or exactly `new` — never a fragment;
+* it holds `old` as long as the rename has not happened (`k ≤ |new| + 1`) and
+  then the `.tmp` sibling holds the `k-1`-byte prefix of `new` (a torn temp
+  file is possible, a torn record is not); once the rename has happened it
+  holds `new` and the temp name is gone;
+* no other path changes.
+The fault streams observe exactly these pairs (record, temp sibling) on the
+real tree, and `writeAtomic` itself is run under RLIMIT_FSIZE against this
+function on every run. -/
+theorem record_path_old_or_new (fs : BFS) (target : Path) (old new : List UInt8) (k : Nat)
+    (h : fs target = some old) :
     ∀ w ∈ Gen.postProcessOutsWriters.filterMap writerOfName,
-      recordAfterFault w old new k = old ∨ recordAfterFault w old new k = new := by
+      (writeCut w fs target new k target = some old ∨ writeCut w fs target new k target = some new) ∧
+      (0 < k → k ≤ new.length + 1 →
+        writeCut w fs target new k target = some old ∧
+        writeCut w fs target new k (tmpPath target) = some (new.take (k - 1))) ∧
+      (new.length + 1 < k →
+        writeCut w fs target new k target = some new ∧ writeCut w fs target new k (tmpPath target) = none) ∧
+      (∀ q, q ≠ target → q ≠ tmpPath target → writeCut w fs target new k q = fs q) := by
   intro w hw
-  have h : Gen.postProcessOutsWriters.filterMap writerOfName = [.atomic] := by decide
-  rw [h] at hw
+  have hws : Gen.postProcessOutsWriters.filterMap writerOfName = [.atomic] := by decide
+  rw [hws] at hw
   rw [List.mem_singleton.mp hw]
-  simp only [recordAfterFault]
-  split
-  · exact Or.inr rfl
-  · exact Or.inl rfl
+  obtain ⟨_, s1, s2, s3⟩ := writeAtomicCut_spec fs target new k
+  refine ⟨(writeAtomicCut_record fs target old new k h).1, fun h0 h1 => ?_, s2, s3⟩
+  exact ⟨(writeAtomicCut_record fs target old new k h).2.1 h1, (s1 h0 h1).2⟩
+
+/-- non-vacuity: `{}` replaced by `{"a":1}`, cut after the open and 3 bytes: record still `{}`, temp file `{"a` -/
+example :
+    let fs : BFS := fun q => if q = ["ps", "TOP", "fork0", "_outs"] then some [0x7B, 0x7D] else none
+    writeCut .atomic fs ["ps", "TOP", "fork0", "_outs"] [0x7B, 0x22, 0x61, 0x22, 0x3A, 0x31, 0x7D] 4
+        ["ps", "TOP", "fork0", "_outs"] = some [0x7B, 0x7D] ∧
+    writeCut .atomic fs ["ps", "TOP", "fork0", "_outs"] [0x7B, 0x22, 0x61, 0x22, 0x3A, 0x31, 0x7D] 4
+        ["ps", "TOP", "fork0", "_outs.tmp"] = some [0x7B, 0x22, 0x61] ∧
+    tmpPath ["ps", "TOP", "fork0", "_outs"] = ["ps", "TOP", "fork0", "_outs.tmp"] := by decide
+
+/-- Negative witness on the file system: the in-place writer (`os.WriteFile`)
+cut after the open and 3 bytes leaves the record PATH holding a fragment that
+is neither the old nor the new record; for every cut after the open the path
+holds the prefix written so far. -/
+theorem inplace_writer_tears_record_path :
+    (let fs : BFS := fun q => if q = ["ps", "TOP", "fork0", "_outs"] then some [0x7B, 0x7D] else none
+     writeCut .inplace fs ["ps", "TOP", "fork0", "_outs"] [0x7B, 0x22, 0x61, 0x22, 0x3A, 0x31, 0x7D] 4
+        ["ps", "TOP", "fork0", "_outs"] = some [0x7B, 0x22, 0x61]) ∧
+    (∀ (fs : BFS) target new k, 0 < k →
+      writeCut .inplace fs target new k target = some (new.take (k - 1))) :=
+  ⟨by decide, fun fs target new k h0 => writeInplaceCut_record fs target new k h0⟩
 
 /-- Negative witness: an in-place writer cut after 3 bytes leaves a fragment
 that is neither the old nor the new record. -/
@@ -571,5 +610,30 @@ moved, whatever the file system: nothing of it reaches outs/. -/
 theorem multidim_not_moved_before_fix (fs : FS) :
     moveOut false ["ps"] (.arr (.file "") 1) "r" "" (.arr [.arr [.str "/ps/f"]]) ["ps", "outs"] fs
       = (.arr [.arr [.str "/ps/f"]], fs) := by rfl
+
+/-! ### definitional unfoldings (documentation of the model, not guarantees) -/
+
+/-- `recordAfterFault` is the byte-level SUMMARY of what the record path holds:
+for the atomic writer it is DEFINED as "old until the rename, then new", so
+"old ∨ new" holds by definition.  The statement with content is
+`record_path_old_or_new` (file-system model, two steps, cut anywhere);
+`recordAfterFault_agrees` says the summary is what that model yields. -/
+theorem record_old_or_new (old new : List UInt8) (k : Nat) :
+    ∀ w ∈ Gen.postProcessOutsWriters.filterMap writerOfName,
+      recordAfterFault w old new k = old ∨ recordAfterFault w old new k = new := by
+  intro w hw
+  have h : Gen.postProcessOutsWriters.filterMap writerOfName = [.atomic] := by decide
+  rw [h] at hw
+  rw [List.mem_singleton.mp hw]
+  simp only [recordAfterFault]
+  split
+  · exact Or.inr rfl
+  · exact Or.inl rfl
+
+/-- the summary agrees with the file-system model, for both writers -/
+theorem recordAfterFault_agrees (w : RecordWriter) (fs : BFS) (target : Path) (old new : List UInt8) (k : Nat)
+    (h : fs target = some old) :
+    writeCut w fs target new k target = some (recordAfterFault w old new k) :=
+  recordAfterFault_eq w fs target old new k h
 
 end Props.C13
